@@ -1,6 +1,6 @@
 CONSTANTS
   GC = FALSE
-  NonTailIf = FALSE
+  Broken = "none"
   Family = "derived-quick"
   MaxKont = 12
 SPECIFICATION Spec
